@@ -1,19 +1,22 @@
 -- `unfold_gen Gen.Module`: unfolds every definition of a generated module that occurs in the goal
 -- (the per-`let` step definitions `f.s_x`, `f`, `f_ok`, loop conditions and bodies), whatever their names
 -- and order, and removes the `let`s.  Proofs about regenerated definitions that start with it do not
--- depend on the names of the Rust locals or on the order of independent `let`s; the fuelled loop
--- functions themselves (`f.loopK`, `f.loopK_ok`: structural recursion) are left folded.
+-- depend on the names of the Rust locals or on the order of independent `let`s; the loop functions
+-- themselves (`f.loopK`, `f.loopK_ok`, `f.forK`, `f.forK_ok`: structural recursion) are left folded.
 import Lean
 
 namespace GenTactic
 open Lean Elab Tactic Meta
 
+def isLoopTail (t : String.Slice) : Bool :=
+  !t.isEmpty && (t.all Char.isDigit || (t.endsWith "_ok" && !(t.dropEnd 3).isEmpty && (t.dropEnd 3).all Char.isDigit))
+
+/-- the recursive definitions of a generated module: `f.loopK`, `f.loopK_ok` (fuelled `while`) and
+    `f.forK`, `f.forK_ok` (`for` over a vector) -/
 def isLoopName (n : Name) : Bool :=
   match n with
   | .str _ s =>
-    (s.startsWith "loop") &&
-      (((s.drop 4).all Char.isDigit) ||
-        (s.endsWith "_ok" && (((s.drop 4).dropEnd 3).all Char.isDigit)))
+    (s.startsWith "loop" && isLoopTail (s.drop 4)) || (s.startsWith "for" && isLoopTail (s.drop 3))
   | _ => false
 
 def unfoldGenCore (p : Name) (g : MVarId) : MetaM MVarId := do
